@@ -3,6 +3,7 @@ import RactorModel.Lemmas.FactoryAffinity
 import RactorModel.Lemmas.FactoryQueuer
 import RactorModel.Lemmas.FactorySlotInst
 import RactorModel.Lemmas.FactoryActors
+import RactorModel.Lemmas.FactoryNoPanic
 
 /-!
 # C14 — Factory routing keeps its promises about where a job runs
@@ -207,6 +208,75 @@ theorem queuer_deque_sound (c : CaseCfg) (hr : c.cfg.router = .q) (steps : List 
   have h1 := d.d1 p hp (by simp) ha
   exact ⟨h1, d.sub _ h1⟩
 
+/-! ## The priority queue: which job leaves the factory queue -/
+
+theorem sorted_split_le {ps1 ps2 : List Nat} {p z : Nat} {l : List Nat} (hl : l = ps1 ++ p :: ps2)
+    (hs : l.Pairwise (· < ·)) (hz : z ∈ l) (hn : z ∉ ps1) : p ≤ z := by
+  subst hl
+  rcases List.mem_append.mp hz with h | h
+  · exact absurd h hn
+  · rcases List.mem_cons.mp h with h | h
+    · omega
+    · have := (List.pairwise_append.mp hs).2.1
+      have := (List.pairwise_cons.mp this).1 z h
+      omega
+
+theorem sorted_split_ge {ps1 ps2 : List Nat} {p z : Nat} {l : List Nat} (hl : l = ps1 ++ p :: ps2)
+    (hs : l.Pairwise (· > ·)) (hz : z ∈ l) (hn : z ∉ ps1) : z ≤ p := by
+  subst hl
+  rcases List.mem_append.mp hz with h | h
+  · exact absurd h hn
+  · rcases List.mem_cons.mp h with h | h
+    · omega
+    · have := (List.pairwise_append.mp hs).2.1
+      have := (List.pairwise_cons.mp this).1 z h
+      omega
+
+theorem prioOf_mem_up (cfg : Cfg) (j : Job) : prioOf cfg j ∈ prioUp := by
+  have := prioOf_lt cfg j
+  unfold NUM_PRIORITIES at this
+  unfold prioUp
+  generalize prioOf cfg j = n at this
+  match n, this with
+  | 0, _ | 1, _ | 2, _ | 3, _ | 4, _ => simp
+
+theorem prioOf_mem_down (cfg : Cfg) (j : Job) : prioOf cfg j ∈ prioDown := by
+  have := prioOf_mem_up cfg j
+  unfold prioUp at this; unfold prioDown
+  simp only [List.mem_cons, List.not_mem_nil, or_false] at this ⊢
+  omega
+
+/-- (`PriorityQueue::pop_front`, `DefaultQueue::pop_front` as the one-class case) for EVERY queue content: the
+job that leaves the factory queue has the most urgent priority present (lowest index), it is the OLDEST job of
+that priority, and all other jobs keep their relative order. -/
+theorem queue_pop_is_most_urgent_oldest (cfg : Cfg) (q r : List Job) (x : Job) (h : qPopFront cfg q = some (x, r)) :
+    (∀ y ∈ q, prioOf cfg x ≤ prioOf cfg y) ∧
+    ∃ pre post, q = pre ++ x :: post ∧ r = pre ++ post ∧ ∀ y ∈ pre, prioOf cfg y ≠ prioOf cfg x := by
+  obtain ⟨ps1, ps2, e1, e2, e3⟩ := popByPrio_spec (show popByPrio cfg prioUp q = some (x, r) from h)
+  refine ⟨?_, e3⟩
+  intro y hy
+  exact sorted_split_le e1 (by decide) (prioOf_mem_up cfg y) (fun hin => e2 _ hin y hy rfl)
+
+/-- (`discard_oldest`, load shedding in `Oldest` mode) the job that is shed has the LEAST urgent priority present
+(highest index) and is the oldest of that priority; the others keep their order. -/
+theorem queue_discard_oldest_is_least_urgent (cfg : Cfg) (q r : List Job) (x : Job) (h : qDiscardOldest cfg q = some (x, r)) :
+    (∀ y ∈ q, prioOf cfg y ≤ prioOf cfg x) ∧
+    ∃ pre post, q = pre ++ x :: post ∧ r = pre ++ post ∧ ∀ y ∈ pre, prioOf cfg y ≠ prioOf cfg x := by
+  obtain ⟨ps1, ps2, e1, e2, e3⟩ := popByPrio_spec (show popByPrio cfg prioDown q = some (x, r) from h)
+  refine ⟨?_, e3⟩
+  intro y hy
+  exact sorted_split_ge e1 (by decide) (prioOf_mem_down cfg y) (fun hin => e2 _ hin y hy rfl)
+
+/-- … and `peek` shows exactly the job `pop_front` will take (the routing loop asks the router about the job it
+then pops). -/
+theorem queue_peek_is_pop (cfg : Cfg) (q r : List Job) (x : Job) (h : qPopFront cfg q = some (x, r)) :
+    qPeek cfg q = some x :=
+  popByPrio_peek (show popByPrio cfg prioUp q = some (x, r) from h)
+
+example : (qPopFront { router := .q, prioQueue := true, hasHandler := true, table := [], hasCC := false }
+    [⟨1, 3, 0, none, false⟩, ⟨2, 8, 0, none, false⟩, ⟨3, 1, 0, none, false⟩, ⟨4, 15, 0, none, false⟩]).map (·.1.id) = some 2 := by
+  decide
+
 /-! ## One job at a time -/
 
 /-- (one at a time) a worker actor that is handling a job does not start another one: its task
@@ -379,5 +449,12 @@ end C14
 #print axioms C14.key_never_on_two_workers_partial
 #print axioms C14.queuer_never_idles
 #print axioms C14.queuer_deque_sound
+#print axioms C14.sorted_split_le
+#print axioms C14.sorted_split_ge
+#print axioms C14.prioOf_mem_up
+#print axioms C14.prioOf_mem_down
+#print axioms C14.queue_pop_is_most_urgent_oldest
+#print axioms C14.queue_discard_oldest_is_least_urgent
+#print axioms C14.queue_peek_is_pop
 #print axioms C14.busy_worker_starts_nothing
 #print axioms C14.cast_to_busy_queues
